@@ -81,15 +81,25 @@ Cross3(a, b) == << a[2] * b[3] - a[3] * b[2], a[3] * b[1] - a[1] * b[3], a[1] * 
 RECURSIVE VfVSum(_, _)
 VfVSum(s, d) == IF s = << >> THEN Zero(d) ELSE VAdd(Head(s), VfVSum(Tail(s), d))
 
-Rij(H, ppp, pos, i, j) == MinImage1(H, VSub(pos[j], pos[i]), ppp)
+\* The minimum image of Cell!MinImage computed directly from the adjugate (no enumeration of
+\* candidate coefficient vectors); at an exact half-cell tie the lower coefficient is taken and
+\* the pair is flagged.  VfFastIsMinImage states the agreement with Cell (checked as an invariant).
+VfFrac(H, v)       == LET a == VecMat(v, Adj(H)) IN IF Det(H) < 0 THEN VNeg(a) ELSE a
+VfImg(H, v, ppp)   == LET f == VfFrac(H, v)  den == Abs(Det(H)) IN
+                      VSub(v, VecMat([k \in 1..Len(v) |-> IF ppp[k] = 1 THEN SetMin(NearestSet(f[k], den)) ELSE 0], H))
+VfTie(H, v, ppp)   == LET f == VfFrac(H, v)  den == Abs(Det(H)) IN \E k \in 1..Len(v) : ppp[k] = 1 /\ IsHalfTie(f[k], den)
+VfFastIsMinImage(H, v, ppp) == VfImg(H, v, ppp) \in MinImage(H, v, ppp) /\ VfTie(H, v, ppp) = HasTie(H, v, ppp)
+Rij(H, ppp, pos, i, j) == VfImg(H, VSub(pos[j], pos[i]), ppp)
 Uij(u, i, j)           == VSub(u[j], u[i])
 PairTie(H, ppp, pos, nl) ==
-  \E i \in 1..Len(pos) : \E k \in 1..Len(nl[i]) : HasTie(H, VSub(pos[nl[i][k]], pos[i]), ppp)
+  \E i \in 1..Len(pos) : \E k \in 1..Len(nl[i]) : VfTie(H, VSub(pos[nl[i][k]], pos[i]), ppp)
 
-DivNum(H, ppp, pos, u, nl, i) ==
-  SumSeq([k \in 1..Len(nl[i]) |-> Dot(Rij(H, ppp, pos, i, nl[i][k]), Uij(u, i, nl[i][k]))])
-CurlNum(H, ppp, pos, u, nl, i) ==
-  VfVSum([k \in 1..Len(nl[i]) |-> Cross3(Rij(H, ppp, pos, i, nl[i][k]), Uij(u, i, nl[i][k]))], 3)
+\* bonds of particle i: minimum-image vectors to the listed neighbours, in list order
+Bonds(H, ppp, pos, nl, i) == [k \in 1..Len(nl[i]) |-> Rij(H, ppp, pos, i, nl[i][k])]
+DivNumB(R, u, nl, i)  == SumSeq([k \in 1..Len(R) |-> Dot(R[k], Uij(u, i, nl[i][k]))])
+CurlNumB(R, u, nl, i) == VfVSum([k \in 1..Len(R) |-> Cross3(R[k], Uij(u, i, nl[i][k]))], 3)
+DivNum(H, ppp, pos, u, nl, i)  == DivNumB(Bonds(H, ppp, pos, nl, i), u, nl, i)
+CurlNum(H, ppp, pos, u, nl, i) == CurlNumB(Bonds(H, ppp, pos, nl, i), u, nl, i)
 Divergence(H, ppp, pos, u, nl, i, S, SU)  == RNorm(DivNum(H, ppp, pos, u, nl, i), Len(nl[i]) * S * SU)
 CurlVec(H, ppp, pos, u, nl, i, S, SU) ==
   [a \in 1..3 |-> RNorm(CurlNum(H, ppp, pos, u, nl, i)[a], Len(nl[i]) * S * SU)]
@@ -98,10 +108,8 @@ CurlVec(H, ppp, pos, u, nl, i, S, SU) ==
 VfMatVec(A, v)       == [a \in 1..Len(A) |-> Dot(A[a], v)]
 LinearField(A, pos) == [i \in 1..Len(pos) |-> VfMatVec(A, pos[i])]
 \* numerator of the neighbour second-moment tensor M_i = (1/cn) sum_j r_ij r_ij^T
-MomNum(H, ppp, pos, nl, i) ==
-  LET d == Len(pos[1]) IN
-  [a \in 1..d |-> [b \in 1..d |->
-     SumSeq([k \in 1..Len(nl[i]) |-> Rij(H, ppp, pos, i, nl[i][k])[a] * Rij(H, ppp, pos, i, nl[i][k])[b]])]]
+MomNumB(R, d) == [a \in 1..d |-> [b \in 1..d |-> SumSeq([k \in 1..Len(R) |-> R[k][a] * R[k][b]])]]
+MomNum(H, ppp, pos, nl, i) == MomNumB(Bonds(H, ppp, pos, nl, i), Len(pos[1]))
 VfTrace(M)  == SumSeq([a \in 1..Len(M) |-> M[a][a]])
 Axial3(M) == << M[3][2] - M[2][3], M[1][3] - M[3][1], M[2][1] - M[1][2] >>
 IsIsotropic(M, m) == \A a, b \in 1..Len(M) : M[a][b] = (IF a = b THEN m ELSE 0)
@@ -113,14 +121,16 @@ LinearFieldHasAnalyticDivCurl(A, H, pos, nl) ==
       ppp == Zero(d)
       u   == LinearField(A, pos)
   IN  \A i \in 1..Len(pos) :
-        LET M  == MomNum(H, ppp, pos, nl, i)
+        LET R  == Bonds(H, ppp, pos, nl, i)
+            M  == MomNumB(R, d)
             AM == MatMul(A, M)
-        IN  /\ DivNum(H, ppp, pos, u, nl, i) = VfTrace(AM)
-            /\ d = 3 => CurlNum(H, ppp, pos, u, nl, i) = Axial3(AM)
-            /\ \A m \in 1..(4 * Len(nl[i]) + 1) :
-                 IsIsotropic(M, m) =>
-                   /\ DivNum(H, ppp, pos, u, nl, i) = m * VfTrace(A)
-                   /\ d = 3 => CurlNum(H, ppp, pos, u, nl, i) = VScale(m, Axial3(A))
+            dv == DivNumB(R, u, nl, i)
+            cv == IF d = 3 THEN CurlNumB(R, u, nl, i) ELSE << >>
+        IN  /\ dv = VfTrace(AM)
+            /\ d = 3 => cv = Axial3(AM)
+            /\ IsIsotropic(M, M[1][1]) =>
+                   /\ dv = M[1][1] * VfTrace(A)
+                   /\ d = 3 => cv = VScale(M[1][1], Axial3(A))
 \* a uniform translation of the field and a common shift of all positions change nothing
 DivCurlShiftInvariant(H, ppp, pos, u, nl, t, w) ==
   LET pos2 == [i \in 1..Len(pos) |-> VAdd(pos[i], t)]
